@@ -114,16 +114,43 @@ Lemma kind_unop t n o a : rprintable_instr c (RUnop t n o a) = true -> stmt_ok (
 Proof. intros H rest. kind. destruct o; cbn; [reflexivity|]. cbn in H. rewrite H. reflexivity. Qed.
 Lemma kind_cast t n a : stmt_ok (RCast t n a).
 Proof. intros rest. kind. Qed.
-Lemma kind_load t n a : stmt_ok (RLoad t n a).
-Proof. intros rest. kind. Qed.
+(* ['volatile'] name *)
+Lemma parse_vol_ref_ok vol a rest :
+  (negb vol || fx_volatile c = true)%bool -> peek_is "ID" rest = false ->
+  parse_vol_ref c (toks (l_vol vol ++ [K a]) ++ rest) = Ok (vol, a, rest).
+Proof.
+  intros Hv Hr. unfold parse_vol_ref.
+  destruct vol; cbn [l_vol app toks flat_map K parse_id bind].
+  - cbn in Hv. cbn. rewrite Hv. reflexivity.
+  - cbn. rewrite Hr. destruct (String.eqb a "volatile"); reflexivity.
+Qed.
+Lemma kind_load t n a vol : rprintable_instr c (RLoad t n a vol) = true -> stmt_ok (RLoad t n a vol).
+Proof.
+  intros H rest. destruct vol; cbn in H; unfold l_instr; rewrite assign_prefix, <- app_assoc, stmt_assign;
+    unfold parse_assignment; rewrite parse_type_ok; cbn; rewrite ?Bool.andb_false_r.
+  - rewrite H. reflexivity.
+  - destruct (String.eqb a "volatile"); reflexivity.
+Qed.
+Lemma kind_store x a vol : rprintable_instr c (RStore x a vol) = true -> stmt_ok (RStore x a vol).
+Proof.
+  intros H rest. destruct vol; cbn in H; unfold parse_statement; cbn.
+  - rewrite H. reflexivity.
+  - destruct (String.eqb x "volatile"); reflexivity.
+Qed.
+Lemma kind_copyblob d s n : rprintable_instr c (RCopyBlob d s n) = true -> stmt_ok (RCopyBlob d s n).
+Proof. intros H rest. cbn in H. unfold parse_statement. cbn. rewrite H. reflexivity. Qed.
+Lemma kind_undef t n : rprintable_instr c (RUndef t n) = true -> stmt_ok (RUndef t n).
+Proof.
+  intros H rest. destruct t as [t|]; [|discriminate]. cbn in H.
+  unfold l_instr. rewrite assign_prefix, <- app_assoc, stmt_assign.
+  unfold parse_assignment. rewrite parse_type_ok. cbn. rewrite ?Bool.andb_false_r, H. destruct (fx_ops c); reflexivity.
+Qed.
 Lemma kind_alloc t n s al : stmt_ok (RAlloc t n s al).
 Proof. intros rest. kind. Qed.
 Lemma kind_addressof t n a : stmt_ok (RAddrOf t n a).
 Proof. intros rest. kind. Qed.
 Lemma kind_literal t n h : stmt_ok (RLit t n h).
 Proof. intros rest. kind. Qed.
-Lemma kind_store x a : stmt_ok (RStore x a).
-Proof. intros rest. reflexivity. Qed.
 Lemma kind_jump b : stmt_ok (RJump b).
 Proof. intros rest. reflexivity. Qed.
 Lemma kind_cjump a o b y n : stmt_ok (RCJump a o b y n).
@@ -200,7 +227,7 @@ Theorem stmt_roundtrip i : rprintable_instr c i = true -> (rsize_instr i <= N)%n
 Proof.
   destruct i; intros H Hn; cbn in Hn;
     [apply kind_const|apply kind_binop|apply kind_unop|apply kind_cast|apply kind_load|apply kind_store
-    |apply kind_alloc|apply kind_addressof|apply kind_literal|discriminate|apply kind_phi|discriminate
+    |apply kind_alloc|apply kind_addressof|apply kind_literal|apply kind_copyblob|apply kind_phi|apply kind_undef
     |apply kind_callf|apply kind_callp|apply kind_jump|apply kind_cjump|apply kind_return|apply kind_exit];
     assumption.
 Qed.
@@ -212,7 +239,7 @@ Proof. induction l as [|x r IH]; [reflexivity|]. cbn [flat_map]. now rewrite tok
 
 Lemma instr_first i r : exists s r', toks (l_instr i) ++ r = TId s :: r'.
 Proof.
-  destruct i; unfold l_instr; rewrite ?assign_prefix; try (destruct t; cbn; eauto); cbn; eauto.
+  destruct i; try destruct vol; try (destruct t as [t|]); unfold l_instr; rewrite ?assign_prefix; try (destruct t; cbn; eauto); cbn; eauto.
 Qed.
 
 Section Q.
@@ -381,12 +408,12 @@ Lemma witnesses_fixed :
 Proof. vm_compute. reflexivity. Qed.
 (* findings that remain *)
 Lemma volatile_refuted :
-  exists m', wf_modul w_volatile = true /\ text_roundtrip tcfg_fixed [] w_volatile = Ok m' /\ m' <> w_volatile
-             /\ m' = norm tcfg_fixed w_volatile.
+  exists m', wf_modul w_volatile = true /\ text_roundtrip tcfg_w2 [] w_volatile = Ok m' /\ m' <> w_volatile
+             /\ m' = norm tcfg_w2 w_volatile.
 Proof. eexists. split; [|split; [|split]]; [vm_compute; reflexivity ..|discriminate|vm_compute; reflexivity]. Qed.
-Lemma copyblob_refuted : wf_modul w_copyblob = true /\ text_roundtrip tcfg_fixed [] w_copyblob = Internal KeyError.
+Lemma copyblob_refuted : wf_modul w_copyblob = true /\ text_roundtrip tcfg_w2 [] w_copyblob = Internal KeyError.
 Proof. split; vm_compute; reflexivity. Qed.
-Lemma undefined_refuted : wf_modul w_undef = true /\ text_roundtrip tcfg_fixed [] w_undef = Internal KeyError.
+Lemma undefined_refuted : wf_modul w_undef = true /\ text_roundtrip tcfg_w2 [] w_undef = Internal KeyError.
 Proof. split; vm_compute; reflexivity. Qed.
 (* ------------------------------------------------------------------ bounded whole-module theorem *)
 Definition roundtrip_prop (c : tcfg) (tab : list (Z * string)) (m : modul) : Prop :=
@@ -449,3 +476,15 @@ Proof.
   pose proof replace_use_fixed as H. rewrite forallb_forall in H. exact (H m Hin).
 Qed.
 
+(* with the third group of repairs the three remaining witnesses round-trip; volatile flags are kept *)
+Lemma wave3_fixed : forallb (fun m => roundtrip_ok tcfg_fixed [] m) [w_volatile; w_copyblob; w_undef] = true.
+Proof. vm_compute. reflexivity. Qed.
+Lemma wave3_roundtrip : forall m, In m [w_volatile; w_copyblob; w_undef] -> roundtrip_prop tcfg_fixed [] m.
+Proof.
+  intros m Hin. apply roundtrip_ok_spec.
+  pose proof wave3_fixed as H. rewrite forallb_forall in H. exact (H m Hin).
+Qed.
+Lemma volatile_kept : text_roundtrip tcfg_fixed [] w_volatile = Ok w_volatile.
+Proof. vm_compute. reflexivity. Qed.
+Lemma norm_keeps_volatile c f i : fx_volatile c = true -> (forall v n t ins, i <> IPhi v n t ins) -> norm_instr c f i = i.
+Proof. intros Hc Hp. destruct i; cbn [norm_instr]; rewrite ?Hc; try reflexivity. exfalso. eapply Hp. reflexivity. Qed.
